@@ -89,8 +89,10 @@ func main() {
 		if *prop != "all" {
 			// a tree that does not load is a failed check, never a pass
 			path := filepath.Join(*verif, "evidence", "violations", *prop+"-load.json")
-			os.MkdirAll(filepath.Dir(path), 0o755)
-			os.WriteFile(path, []byte(fmt.Sprintf("{\"property\":%q,\"error\":%q}\n", *prop, err.Error())), 0o644)
+			if !*noEvidence { // scratch runs (controls, corpora, red team) leave no files behind
+				os.MkdirAll(filepath.Dir(path), 0o755)
+				os.WriteFile(path, []byte(fmt.Sprintf("{\"property\":%q,\"error\":%q}\n", *prop, err.Error())), 0o644)
+			}
 			fmt.Printf("VIOLATION property=%s replay=%s\n", *prop, path)
 		}
 		os.Exit(1)
